@@ -103,4 +103,25 @@ PLAN = {
             {"run": "TestC12_Timed", "checks": 2000, "shards": 4, "timeout": 3000},
         ],
     },
+    "C13": {
+        "quick": [
+            {"run": "TestC13_Boosts", "checks": 5000},
+            {"run": "TestC13_Analyzer", "checks": 1500},
+        ],
+        "thorough": [
+            {"run": "TestC13_Boosts", "checks": 200000, "shards": 12, "timeout": 3000},
+            {"run": "TestC13_Analyzer", "checks": 50000, "shards": 4, "timeout": 3000},
+        ],
+    },
+    "C20": {
+        "wtf": True,
+        "quick": [
+            {"run": "TestC20_Engine", "checks": 6000},
+            {"run": "TestC20_CLI", "checks": 60},
+        ],
+        "thorough": [
+            {"run": "TestC20_Engine", "checks": 300000, "shards": 14, "timeout": 3000},
+            {"run": "TestC20_CLI", "checks": 3000, "shards": 2, "timeout": 3000},
+        ],
+    },
 }
